@@ -114,16 +114,26 @@ func c01GenCond(r *VRand, stats *VStats, p *c01Prog) c01Cond {
 	g := c01Group{}
 	switch fn {
 	case "dip", "sip":
-		if len(p.ipPool) > 0 && r.Chance(0.15) {
-			// near twin of an earlier set: all values but one are the same (same length, same first
-			// values in text and in sorted order most of the time) — it must get its own LPM slot
+		var longSets [][]c01Val
+		for _, set := range p.ipPool {
+			if len(set) > 5 {
+				longSets = append(longSets, set)
+			}
+		}
+		if (len(longSets) > 0 && r.Chance(0.35)) || (len(p.ipPool) > 0 && r.Chance(0.1)) {
+			// near twin of an earlier set: all values but one are the same (same length, and for a long
+			// list usually the same first values in text and in canonical order) — it must get its
+			// own LPM slot
 			base := p.ipPool[r.Intn(len(p.ipPool))]
+			if len(longSets) > 0 {
+				base = longSets[r.Intn(len(longSets))]
+			}
 			g.vals = append([]c01Val(nil), base...)
 			pf := c12RandPrefix(r, NewVStats())
 			if r.Bool() {
 				pf = netip.PrefixFrom(netip.AddrFrom4([4]byte{10, byte(r.Intn(2)), byte(r.Intn(4)), byte(1 + r.Intn(250))}), 32)
 			}
-			g.vals[len(g.vals)-1-r.Intn(1+len(g.vals)/3)] = c01Val{text: "'" + pf.String() + "'", tok: c12Tok(pf), pfx: pf}
+			g.vals[r.Intn(len(g.vals))] = c01Val{text: "'" + pf.String() + "'", tok: c12Tok(pf), pfx: pf}
 			stats.Inc("cond.ip_set_near_twin")
 			if len(g.vals) > 5 {
 				stats.Inc("cond.ip_set_near_twin.long")
